@@ -519,6 +519,9 @@ func c02Store(p *Prog, r *Report) {
 	c02FiltersExtracted(p, r, "R15")
 	r.Rule("R16", "a partial update keeps what it does not mention: the helper that fills the replacement item from the existing one sets every valid, settable field that is nil in the update, on every path of its per-field iteration and whatever the field's kind (shared with C04-R4b)")
 	c02CarryOver(p, r, "R16")
+	r.Rule("R17", "the stages of the generic UpdateList are chained: the list every stage returns flows into the next stage or the result, and every stage after the delete stage works on the list the delete stage left (shared with C04-R15) — a stage fed with the list as it was before the delete brings deleted items back; a stage whose result is dropped has no effect")
+	engineStageResultsUsed(p, r, "R17")
+	c02HandlersUseExtractedFilters(p, r, "R18")
 	r.Rule("R8", "in FunctionData.UpdateData every store to the data field is either guarded by both filters being nil (replace path) or happens after the Updater.UpdateList call under its success (merge path)")
 	var fns []*ssa.Function
 	for _, f := range p.RepoFns("spine") {
@@ -957,4 +960,91 @@ func c02CarryOver(p *Prog, r *Report, rule string) {
 		r.Check(rule, FnName(og)+"|carries-over-unmentioned-fields", esc == "", p.InstrPos(setCall), "a valid, settable field that is nil in the update is filled from the existing item on every path of the iteration, whatever its kind (pointer, list, map); "+esc)
 	}
 	r.Floor(rule, "tag-aware mutators", n, 1)
+}
+
+// c02HandlersUseExtractedFilters: the handlers below the dispatcher apply an update with the filter pair the
+// dispatcher extracted and put into the message (Message.FilterPartial / Message.FilterDelete) — not with filters they
+// read again from the command (the command's own filter list is not part of the contract between dispatcher and
+// handler: once one side clears it or the other re-reads it, a partial reply replaces the replicated data).
+func c02HandlersUseExtractedFilters(p *Prog, r *Report, rule string) {
+	r.Rule(rule, "reply, notify and write handlers hand the store the filter pair of the message (Message.FilterPartial, Message.FilterDelete) that the dispatcher extracted; none of them re-reads filters from the command")
+	fri := p.LookupIface("api", "FeatureRemoteInterface")
+	fli := p.LookupIface("api", "FeatureLocalInterface")
+	if fri == nil || fli == nil {
+		r.Undecided(rule, "anchor:api interfaces", "", "interface not found")
+		return
+	}
+	n := 0
+	for _, root := range p.ImplsOf(fli, "HandleMessage") {
+		if isWrapper(root) || root.Blocks == nil {
+			continue
+		}
+		// everything the handler reaches synchronously inside package spine, a few calls deep
+		seen := map[*ssa.Function]bool{}
+		var visit func(fn *ssa.Function, d int)
+		visit = func(fn *ssa.Function, d int) {
+			if seen[fn] || d > 4 || fn.Blocks == nil || !p.IsRepoFn(fn) || fnPkgPath(fn) != repoMod+"/spine" {
+				return
+			}
+			seen[fn] = true
+			forEachCallOwn(fn, func(site ssa.CallInstruction) {
+				c, ok := site.(*ssa.Call)
+				if !ok {
+					return
+				}
+				if calleeIsIfaceMethod(&c.Call, fri, "UpdateData") {
+					args := callArgs(&c.Call)
+					if len(args) == 5 {
+						n++
+						// a filter that arrives as a parameter of the handler's helper: what its callers pass
+						through := func(v ssa.Value, suffix string) (string, bool) {
+							par, isPar := v.(*ssa.Parameter)
+							if !isPar {
+								pth := Path(substParam(v))
+								return pth, strings.HasSuffix(pth, suffix) || isNilConst(v)
+							}
+							idx := -1
+							for i, q := range par.Parent().Params {
+								if q == par {
+									idx = i
+								}
+							}
+							all, desc := true, ""
+							callers := p.Callers(par.Parent())
+							nReal := 0
+							for _, cs := range callers {
+								if isWrapper(cs.Parent()) {
+									continue // a promoted-method wrapper hands its own parameters through
+								}
+								nReal++
+								as := argsWithRecv(cs.Common())
+								if idx < 0 || idx >= len(as) {
+									all = false
+									continue
+								}
+								pth := Path(as[idx])
+								desc += pth + " "
+								if !strings.HasSuffix(pth, suffix) && !isNilConst(as[idx]) {
+									all = false
+								}
+							}
+							return "param <- " + strings.TrimSpace(desc), all && nReal > 0
+						}
+						fp, okP := through(args[3], ".FilterPartial")
+						fd, okD := through(args[4], ".FilterDelete")
+						ok := okP && okD
+						r.Check(rule, fmt.Sprintf("%s|update-filters#%d", FnName(fn), n), ok, p.InstrPos(c), fmt.Sprintf("the cache update is called with (%s, %s)", fp, fd))
+					}
+				}
+				if cal := c.Call.StaticCallee(); cal != nil && staticCallee(&c.Call, repoMod+"/model", "CmdType", "ExtractFilter") {
+					r.Fail(rule, FnName(fn)+"|re-extracts", p.InstrPos(c), "a handler reads the filters from the command again instead of using the pair of the message")
+				}
+				for _, callee := range p.Callees(c) {
+					visit(callee, d+1)
+				}
+			})
+		}
+		visit(root, 0)
+	}
+	r.Floor(rule, "cache updates below the handlers", n, 2)
 }
